@@ -125,6 +125,15 @@ func appendEdit(rng *rand.Rand, b *jBundle, step int) string {
 					e.Decl.Options = append(e.Decl.Options, "APPENDED_"+strings.ToUpper(c13Suffix[step%len(c13Suffix)]))
 					return "append option to enum " + e.Decl.Name
 				}})
+				targets = append(targets, target{"enum-option-numbered", func() string {
+					name := "NUMBERED_" + strings.ToUpper(c13Suffix[step%len(c13Suffix)])
+					e.Decl.Options = append(e.Decl.Options, name)
+					if e.Decl.OptNumber == nil {
+						e.Decl.OptNumber = map[string]int32{}
+					}
+					e.Decl.OptNumber[name] = int32(len(e.Decl.Options) + 20 + step)
+					return "append option with an explicit number to enum " + e.Decl.Name
+				}})
 			case e.Service != nil:
 				for _, m := range e.Service.Methods {
 					m := m
@@ -181,11 +190,17 @@ func appendEdit(rng *rand.Rand, b *jBundle, step int) string {
 		}
 		targets = append(targets, target{"top-level-declaration", func() string {
 			name := "Appended" + c13Suffix[step%len(c13Suffix)]
-			switch rng.Intn(3) {
+			switch rng.Intn(5) {
 			case 0:
 				f.Elems = append(f.Elems, objDecl(name, fld("name", tScalar(kString))))
 			case 1:
 				f.Elems = append(f.Elems, enumDecl(name, "ONE", "TWO"))
+			case 2:
+				f.Elems = append(f.Elems, &jElem{Service: &jService{Name: name, BasePath: "/appended/" + strings.ToLower(name), Methods: []*jMethod{{Name: "Do" + name, HTTPMethod: "POST", Path: "/do", Req: []*jF{fld("name", tScalar(kString))}, HasRes: true, Res: []*jF{fld("ok", tScalar(kBool))}}}}})
+				return "append service " + name + " to " + f.Path
+			case 3:
+				f.Elems = append(f.Elems, &jElem{Topic: &jTopic{Name: name, Type: "publish", Messages: []*jTopicMsg{{Name: "Send" + name, Fields: []*jF{fld("name", tScalar(kString))}}}}})
+				return "append topic " + name + " to " + f.Path
 			default:
 				f.Elems = append(f.Elems, oneofDecl(name, fld("only", &jT{Kind: kObject, Inline: &jDecl{Kind: kObject}})))
 			}
